@@ -1,7 +1,9 @@
 """C18 bounded run-time tier: FieldRotator against explicit rotation-matrix formulas, an axis-aligned
 bounding box computed from the 8 rotated corners and a hand-written trilinear interpolation.
 Bounded: 3-d meshes with 3..7 cells per axis (thin 1..2-cell axes in some cases), seeded rotations of all
-input kinds, sequences of up to 3 rotations."""
+input kinds, sequences of up to 3 rotations; originals of every storage dtype (dtype= keyword given as type / str / np.dtype:
+int, int32, int8, uint8, bool, float32, float64, complex, complex64; integer data without the keyword) and with unit / valid mask / named vdims /
+mesh bc and subregions - the oracle is always computed in float64 / complex128 from the values the original stores."""
 import math
 import warnings
 import numpy as np
@@ -24,11 +26,15 @@ CLAUSES = {
     "C18.rotation_input": "the rotation matrix used equals the explicit formula for the given input kind (quaternion x,y,z,w; matrix; rotation vector = Rodrigues; Euler extrinsic lower-case / intrinsic upper-case, radians or degrees; mrp; align_vector = rotation about initial x final by the angle between them) - observed through uniform / linear fields",
     "C18.refuse": "fields with nvdim 2 or 4, meshes of 1, 2 or 4 dimensions, 3-vectors with empty mapping, mapping to unknown dims or mapping two components to one axis are refused with ValueError (at construction, or at the first rotate for the duplicate mapping)",
 }
-RULE = ("seeded 3-d meshes (3..7 cells per axis, anisotropic cells ratio <= 3, scale 10^U(-9,0), offset up to 3 extents, optional custom dims) x field kind "
+RULE = ("rotate: seeded 3-d meshes (3..7 cells per axis, anisotropic cells ratio <= 3, scale 10^U(-9,0), offset up to 3 extents, optional custom dims) x field kind "
         "(uniform 3-vector, linear scalar, random scalar, random 3-vector, linear 3-vector) x mapping (default / permuted with custom vdims) x sequences of "
         "1-3 rotations, each given as quaternion (unnormalised), matrix, rotvec, Euler (1-3 axes, extrinsic/intrinsic, rad/deg), mrp or align_vector, x "
-        "default or explicit n; every step of a sequence is checked with the composed matrix; quarter: cubic cells, n 1..6 per axis, 1-4 successive quarter turns; "
-        "refuse: fixed list; trivial = no cell >= 1 cell inside; distinct by (kind, params)")
+        "default or explicit n; every step of a sequence is checked with the composed matrix; typed: the same checks on originals created with "
+        "dtype= (int, int32, '<i4', np.dtype(int64), int8, uint8, bool, float32, float64, complex, complex64), with integer data and no keyword, or with the default dtype, "
+        "x value given as array (integer or float array) / tuple / callable x unit x valid mask x named vdims (scalar and vector, default-order or permuted mapping) x mesh bc / subregions; "
+        "their values are exactly representable in the dtype (integers, dyadic fractions; linear fields = integer coefficients per cell index) or random, and the oracle reads the stored "
+        "array back as float64 / complex128; quarter: cubic cells, n 1..6 per axis, 1-4 successive quarter turns; "
+        "typed quarter turns compare with Field.rotate90 of the float64 / complex128 twin of the original; refuse: fixed list; trivial = no cell >= 1 cell inside; distinct by (kind, params)")
 ASSUMPTIONS = [
     "bounded: <= 7 cells per axis, sequences of <= 3 rotations, seeded rotations",
     "a band of 1e-8 cell around the region boundary is excluded from the zero-outside clause (rounding of the back-rotation; the library documents a 1e-9 cell boundary tolerance)",
@@ -36,6 +42,9 @@ ASSUMPTIONS = [
     "cells whose back-rotated centre is inside but < 1 cell from the boundary are not constrained (the property does not constrain them), except for quarter turns",
     "trusted: numpy; scipy only inside the library under test (rotation matrices in the oracle come from explicit formulas)",
     "dims/units of the new region and unit/valid of the new field are not constrained by the property and not checked",
+    "the dtype of the result's array is not constrained as such - only its values (to the float64 budgets above), for every storage dtype of the original; values of cells "
+    "marked invalid take part in the interpolation like any other stored value (the property does not mention valid)",
+    "typed quarter turns: the reference is Field.rotate90 of a float64 / complex128 field holding the same values (rotate90 of integer fields is C12's business)",
 ]
 
 VD = ["ma", "mb", "mc"]
@@ -217,12 +226,107 @@ def cases(ctx):
         yield "quarter", {"n": n, "cell": scale, "p1": (scale * rng.uniform(-3, 3, size=3) * (n[0] if i % 3 else 0)).tolist(),
                           "field": ["random1", "random3"][i % 2], "mapping": "perm%d" % int(rng.integers(1, 6)) if i % 4 == 1 else "default",
                           "turns": turns, "seed": int(rng.integers(1 << 30))}
+    # typed originals: every storage dtype x field kind, metadata options cycled with co-prime periods
+    treps = 2 if ctx.tier == "quick" else 14
+    j = 0
+    for rep in range(treps):
+        for key in TYPED:
+            for fk in FIELDS:
+                if key == "bool" and fk.startswith("linear"):
+                    continue                  # no non-constant linear boolean field
+                j += 1
+                nrot = 1 + (j + rep) % 2 if ctx.tier == "quick" or j % 5 else 3
+                n = rng.integers(3, 8, size=3).tolist()
+                scale = float(10.0 ** rng.uniform(-9, 0))
+                if fk.endswith("3"):
+                    mapping = ["default", "perm%d" % int(rng.integers(1, 6)), "named"][(j + rep) % 3]
+                else:
+                    mapping = "default"
+                yield "typed", {
+                    "n": n, "cell": (scale * rng.uniform(1, 3, size=3)).tolist(),
+                    "p1": (scale * rng.uniform(-3, 3, size=3) * (n[0] if j % 4 else 0)).tolist(),
+                    "field": fk, "mapping": mapping, "custom_dims": bool(j % 7 == 3),
+                    "dtype": key, "form": ["array", "callable", "array_float"][(j + rep) % 3],
+                    "unit": [None, "A/m", "T"][j % 3], "valid": ["all", "mask", "mask"][(j // 2) % 3],
+                    "scalar_vdims": bool(j % 2), "mesh_meta": ["none", "bc", "sub", "both"][(j + 2 * rep) % 4],
+                    "rotations": [_rand_spec(rng, METHODS[int(rng.integers(len(METHODS)))]) for _ in range(nrot)],
+                    "new_n": rng.integers(2, 10, size=3).tolist() if j % 3 == 0 else None,
+                    "seed": int(rng.integers(1 << 30))}
+    tq = 26 if ctx.tier == "quick" else 260
+    for i in range(tq):
+        n = rng.integers(1, 7, size=3).tolist()
+        scale = float(10.0 ** rng.uniform(-9, 0))
+        key = TYPED[i % len(TYPED)]
+        turns = [{"axis": "xyz"[int(rng.integers(3))], "k": int(rng.choice([1, -1, 2, 3])) if s == 0 else int(rng.choice([1, -1])),
+                  "how": ["euler", "rotvec", "matrix", "euler_deg"][int(rng.integers(4))]} for s in range(int(rng.integers(1, 4)))]
+        yield "quarter", {"n": n, "cell": scale, "p1": (scale * rng.uniform(-3, 3, size=3) * (n[0] if i % 3 else 0)).tolist(),
+                          "field": ["random3", "random1", "linear3"][(i // len(TYPED) + i) % 3] if key != "bool" else ["random3", "random1"][i % 2],
+                          "mapping": ["default", "perm%d" % int(rng.integers(1, 6)), "named"][i % 3],
+                          "dtype": key, "form": ["array", "callable", "array_float"][i % 3], "unit": [None, "A/m"][i % 2],
+                          "valid": ["all", "mask"][(i // 2) % 2], "scalar_vdims": bool(i % 2), "mesh_meta": ["none", "bc", "sub", "both"][i % 4],
+                          "turns": turns, "seed": int(rng.integers(1 << 30))}
     for what in ("nvdim2", "nvdim4", "ndim1", "ndim2", "ndim4", "ndim2_vec3", "empty_mapping", "unknown_dims", "duplicate_mapping", "ok_scalar", "ok_vector"):
         yield "refuse", {"what": what}
 
 
 # ---------------------------------------------------------------------------------- construction
 PERMS = {"default": (0, 1, 2), "perm1": (0, 2, 1), "perm2": (1, 0, 2), "perm3": (1, 2, 0), "perm4": (2, 0, 1), "perm5": (2, 1, 0)}
+
+
+# storage dtypes of the original: key -> (dtype keyword or None, class, max |value| of exactly representable test data)
+TYPED = ["int", "int32", "float32", "complex", "int_nokw", "float64", "int8", "uint8", "bool", "complex64", "str_int32", "npdtype_int", "none"]
+_DT = {
+    "int": (int, "int", None), "int32": (np.int32, "int", None), "str_int32": ("<i4", "int", None), "npdtype_int": (np.dtype("int64"), "int", None),
+    "int_nokw": (None, "int", None), "int8": (np.int8, "int", 100), "uint8": (np.uint8, "uint", 200), "bool": (bool, "bool", 1),
+    "float32": (np.float32, "float", None), "float64": (float, "float", None), "none": (None, "float", None),
+    "complex": (complex, "complex", None), "complex64": (np.complex64, "complex", None),
+}
+
+
+def _exact_values(pr, rng, n, nv):
+    """test data whose values are exactly representable in the storage dtype, as float64 / complex128 (*n, nv);
+    linear scalar: integer coefficients per cell index, value = ai . index + bi (info: ai (3,), bi)"""
+    key, fk = pr["dtype"], pr["field"]
+    _, cls, M = _DT[key]
+    if M is None:
+        M = int(10 ** rng.integers(0, 6))
+    I = np.stack(np.meshgrid(*[np.arange(k) for k in n], indexing="ij"), axis=-1).astype(float)     # (*n, 3) cell indices
+    lo = 0 if cls in ("uint", "bool") else -M
+    c = max(1, M // 40)
+
+    def part():
+        if fk == "uniform3":
+            v = rng.integers(lo, M + 1, size=3)
+            while not np.any(v):
+                v = rng.integers(lo, M + 1, size=3)
+            return np.broadcast_to(v.astype(float), (*n, 3)).copy(), None
+        if fk == "linear1":
+            ai = rng.integers(0 if lo == 0 else -c, c + 1, size=3).astype(float)
+            if not np.any(ai):
+                ai[int(rng.integers(3))] = 1.0
+            bi = float(rng.integers(0 if lo == 0 else -(M // 2), max(1, M // 2) + 1))
+            return (I @ ai + bi)[..., None], (ai, bi)
+        if fk == "linear3":
+            Ai = rng.integers(0 if lo == 0 else -c, c + 1, size=(3, 3)).astype(float)
+            bi = rng.integers(0 if lo == 0 else -(M // 2), max(1, M // 2) + 1, size=3).astype(float)
+            return I @ Ai.T + bi, None
+        if cls == "float" or cls == "complex":
+            return rng.normal(size=(*n, nv)) * M, None            # rounded to the storage dtype by the constructor; the oracle reads it back
+        return rng.integers(lo, M + 1, size=(*n, nv)).astype(float), None
+
+    re, lin = part()
+    s = float(2.0 ** rng.integers(-8, 9)) if cls in ("float", "complex") else 1.0         # dyadic scale: still exact in float32 / complex64
+    info = {}
+    if cls == "complex":
+        im, lin_im = part()
+        raw = (re + 1j * im) * s
+        if lin is not None:
+            info["ai"], info["bi"] = (lin[0] + 1j * lin_im[0]) * s, (lin[1] + 1j * lin_im[1]) * s
+    else:
+        raw = re * s
+        if lin is not None:
+            info["ai"], info["bi"] = lin[0] * s, lin[1] * s
+    return raw, info
 
 
 def _build(pr, rng):
@@ -234,38 +338,91 @@ def _build(pr, rng):
         region = df.Region(p1=tuple(p1), p2=tuple(p2), dims=["u", "v", "w"], units=["nm", "nm", "nm"])
     else:
         region = df.Region(p1=tuple(p1), p2=tuple(p2))
-    mesh = df.Mesh(region=region, n=tuple(n))
-    dims = list(mesh.region.dims)
+    dims = list(region.dims)
     pmin = np.minimum(p1, p2)
+    typed = "dtype" in pr
+    mkw = {}
+    mm = pr.get("mesh_meta", "none")
+    if mm in ("bc", "both"):
+        mkw["bc"] = dims[0] + dims[2]
+    mesh = None
+    if mm in ("sub", "both"):
+        # a sub-block of whole cells; if the library finds it misaligned (rounding of k*cell) the whole region is used instead
+        k = np.maximum(1, np.array(n) // 2)
+        for q2 in (pmin + k * cell, p2):
+            sub = df.Region(p1=tuple(pmin), p2=tuple(q2), dims=dims, units=list(region.units))
+            r, mesh = raises(Exception, df.Mesh, region=region, n=tuple(n), subregions={"s0": sub}, **mkw)
+            if not r:
+                break
+            mesh = None
+    if mesh is None:
+        mesh = df.Mesh(region=region, n=tuple(n), **mkw)
     centres = [pmin[a] + (np.arange(n[a]) + 0.5) * cell[a] for a in range(3)]
     P = np.stack(np.meshgrid(*centres, indexing="ij"), axis=-1)          # (*n, 3) own cell centres
     fk = pr["field"]
     info = {}
-    vs = float(10.0 ** rng.integers(-3, 7))
-    if fk == "uniform3":
-        v = rng.normal(size=3) * vs
-        data = np.broadcast_to(v, (*n, 3)).copy()
-        info["v"] = v
-    elif fk == "linear1":
-        a = rng.normal(size=3) * vs / cell
-        b = float(rng.normal() * vs)
-        data = (P @ a + b)[..., None]
-        info["a"], info["b"] = a, b
-    elif fk == "linear3":
-        A = rng.normal(size=(3, 3)) * vs / cell
-        b = rng.normal(size=3) * vs
-        data = P @ A.T + b
-    elif fk == "random1":
-        data = rng.normal(size=(*n, 1)) * vs
-    elif fk == "random3":
-        data = rng.normal(size=(*n, 3)) * vs
-    nv = data.shape[-1]
-    perm = PERMS[pr.get("mapping", "default")]      # component i is mapped to axis perm[i]
+    nv = 3 if fk.endswith("3") else 1
+    if typed:
+        data, info = _exact_values(pr, rng, n, nv)
+    else:
+        vs = float(10.0 ** rng.integers(-3, 7))
+        if fk == "uniform3":
+            v = rng.normal(size=3) * vs
+            data = np.broadcast_to(v, (*n, 3)).copy()
+        elif fk == "linear1":
+            a = rng.normal(size=3) * vs / cell
+            b = float(rng.normal() * vs)
+            data = (P @ a + b)[..., None]
+            info["a"], info["b"] = a, b
+        elif fk == "linear3":
+            A = rng.normal(size=(3, 3)) * vs / cell
+            b = rng.normal(size=3) * vs
+            data = P @ A.T + b
+        elif fk == "random1":
+            data = rng.normal(size=(*n, 1)) * vs
+        elif fk == "random3":
+            data = rng.normal(size=(*n, 3)) * vs
+    mapping = pr.get("mapping", "default")
+    perm = PERMS["default" if mapping == "named" else mapping]      # component i is mapped to axis perm[i]
     kw = {}
-    if nv == 3 and (pr.get("mapping", "default") != "default" or pr.get("custom_dims")):
+    if nv == 3 and (mapping != "default" or pr.get("custom_dims")):
         kw["vdims"] = VD
         kw["vdim_mapping"] = {VD[i]: dims[perm[i]] for i in range(3)}
-    f = df.Field(mesh, nvdim=nv, value=data.copy(), **kw)
+    if nv == 1 and pr.get("scalar_vdims"):
+        kw["vdims"] = ["rho"]
+    if pr.get("unit") is not None:
+        kw["unit"] = pr["unit"]
+    if pr.get("valid", "all") == "mask":
+        mask = rng.integers(0, 2, size=tuple(n)).astype(bool)
+        mask[tuple(rng.integers(0, k) for k in n)] = False
+        kw["valid"] = mask
+    if typed:
+        dt, cls, _ = _DT[pr["dtype"]]
+        if dt is not None:
+            kw["dtype"] = dt
+        form = pr.get("form", "array")
+        native = {"int": np.int64, "uint": np.int64, "bool": bool, "float": np.float64, "complex": np.complex128}[cls]
+        if pr["dtype"] == "int_nokw" or form != "array_float":
+            inp = data.astype(native)              # exact: data holds values of that kind
+        else:
+            inp = data.copy()                      # float64 / complex128 array holding integer (dyadic) values + dtype keyword
+        if form == "callable":
+            def value(p, _inp=inp):
+                idx = tuple(int(t) for t in np.rint((np.asarray(p, dtype=float) - pmin) / cell - 0.5))
+                return _inp[idx].tolist() if nv > 1 else _inp[idx][0].item()
+        elif fk == "uniform3":
+            value = tuple(inp[0, 0, 0].tolist())   # the documented form  Field(mesh, nvdim=3, value=(0, 0, 1), dtype=int)
+        else:
+            value = inp
+        f = df.Field(mesh, nvdim=nv, value=value, **kw)
+        # the oracle works on the values the original STORES, read back in float64 / complex128
+        data = np.array(f.array, dtype=np.complex128 if np.iscomplexobj(f.array) else np.float64)
+        if fk == "uniform3":
+            info["v"] = data[0, 0, 0].copy()
+    else:
+        f = df.Field(mesh, nvdim=nv, value=data.copy(), **kw)
+        if fk == "uniform3":
+            info["v"] = v
     if nv == 3:
         # data holds the COMPONENTS; the spatial vector has axis-d entry = component mapped to d
         inv = [perm.index(d) for d in range(3)]
@@ -273,6 +430,7 @@ def _build(pr, rng):
         info["perm"] = list(perm)                 # comp[i] = spatial[perm[i]]
         if fk == "uniform3":
             info["v_spatial"] = info["v"][inv]
+    info["storage"] = str(f.array.dtype)
     return mesh, f, data, info
 
 
@@ -290,7 +448,7 @@ def trilinear(data, pmin, cell, pts):
     u = (pts - pmin) / cell - 0.5
     i0 = np.clip(np.floor(u).astype(int), 0, np.maximum(n - 2, 0))
     w = u - i0
-    out = np.zeros((len(pts), data.shape[-1]))
+    out = np.zeros((len(pts), data.shape[-1]), dtype=data.dtype)
     for dx in (0, 1):
         for dy in (0, 1):
             for dz in (0, 1):
@@ -315,12 +473,15 @@ def _expected(Q, mesh, data, info, g, fk):
     inside = np.all((back >= pmin + cell) & (back <= pmax - cell), axis=1)
     outside = np.any((back < pmin - 1e-8 * cell) | (back > pmax + 1e-8 * cell), axis=1)
     nv = data.shape[-1]
-    want = np.zeros((len(c), nv))
+    want = np.zeros((len(c), nv), dtype=data.dtype)
     if inside.any():
         pts = back[inside]
         if fk == "uniform3":
             sp = np.broadcast_to(Q @ info["v_spatial"], (len(pts), 3))
             w = sp[:, info["perm"]]
+        elif fk == "linear1" and "ai" in info:
+            # linear in the cell index: a.p + b with a = ai / cell, b = bi - a.(pmin + cell/2), evaluated in index coordinates
+            w = (((pts - pmin) / cell - 0.5) @ info["ai"] + info["bi"])[:, None]
         elif fk == "linear1":
             w = (pts @ info["a"] + info["b"])[:, None]
         else:
@@ -359,9 +520,18 @@ def _check_geometry(ctx, mesh, g, Q, new_n, clause_region="C18.region"):
     return ok
 
 
+def _value_sig(data, g):
+    """complex originals whose rotated field holds a real array form a defect class of their own (imaginary part dropped);
+    everything else keeps the default signature (= kind)"""
+    if np.iscomplexobj(data) and not np.iscomplexobj(g.array):
+        return "complex-original-rotated-field-real"
+    return None
+
+
 def _check_values(ctx, mesh, f, data, info, g, Q, fk, clauses, what):
     """clauses: list of clause ids under which the value comparison is stated"""
     ex = _expected(Q, mesh, data, info, g, fk)
+    what = "%s [original stores %s, rotated field stores %s]" % (what, info.get("storage"), g.array.dtype)
     nv = data.shape[-1]
     ok_shape = g.nvdim == nv and g.array.shape[-1] == nv
     for cl in clauses:
@@ -379,8 +549,8 @@ def _check_values(ctx, mesh, f, data, info, g, Q, fk, clauses, what):
         ok = bool(np.all(err <= tol))
         k = int(np.argmax(err.max(axis=1)))
         for cl in clauses:
-            ctx.require(ok, cl, "%s: interior cells differ from Q applied to the (interpolated) original" % what,
-                        worst_over_budget=float(err.max() / tol), cells=int(ins.sum()), got=got[ins][k], want=ex["want"][ins][k], back=ex["back"][ins][k])
+            ctx.require(ok, cl, "%s: interior cells differ from Q applied to the (interpolated) original (float64 / complex128 oracle on the stored values)" % what,
+                        sig=_value_sig(data, g), worst_over_budget=float(err.max() / tol), cells=int(ins.sum()), got=got[ins][k], want=ex["want"][ins][k], back=ex["back"][ins][k])
     if out.any():
         ctx.require(bool(np.all(got[out] == 0.0)), "C18.zero_outside", "%s: a cell whose back-rotated centre is outside the region is not zero" % what,
                     cells=int(out.sum()), nonzero=int(np.count_nonzero(np.any(got[out] != 0, axis=1))))
@@ -391,7 +561,7 @@ def _check_values(ctx, mesh, f, data, info, g, Q, fk, clauses, what):
 def check(kind, pr, ctx):
     with warnings.catch_warnings():
         warnings.simplefilter("ignore")
-        if kind == "rotate":
+        if kind in ("rotate", "typed"):
             return check_rotate(pr, ctx)
         if kind == "quarter":
             return check_quarter(pr, ctx)
@@ -419,6 +589,7 @@ def check_rotate(pr, ctx):
     if r:
         return
     ctx.require(rot.field is f, "C18.clear", "a fresh rotator does not expose the original field")
+    storage = f.array.dtype
     Q = np.eye(3)
     any_inside = False
     specs = pr["rotations"]
@@ -431,7 +602,8 @@ def check_rotate(pr, ctx):
         if r:
             return
         g = rot.field
-        ctx.require(g is not f and np.array_equal(f.array, data), "C18.composition" if step else "C18.clear", "rotate() changed the original field / returned it")
+        ctx.require(g is not f and f.array.dtype == storage and np.array_equal(f.array, data), "C18.composition" if step else "C18.clear",
+                    "rotate() changed the original field (values / storage dtype) or returned it")
         okg = _check_geometry(ctx, mesh, g, Q, new_n)
         if step > 0:
             # (the wrong order Q_earlier Q_later gives a different box / different values unless the rotations commute)
@@ -446,15 +618,17 @@ def check_rotate(pr, ctx):
             fresh = df.FieldRotator(f)
             fresh.rotate("from_matrix", Q, n=tuple(int(k) for k in g.mesh.n))
             h = fresh.field
-            same = h.array.shape == g.array.shape and bool(np.all(np.abs(h.array - g.array) <= _budget(mesh, g, data)))
+            ha, ga = np.asarray(h.array, dtype=np.complex128), np.asarray(g.array, dtype=np.complex128)
+            same = ha.shape == ga.shape and bool(np.all(np.abs(ha - ga) <= _budget(mesh, g, data)))
             ctx.require(same, "C18.composition", "successive rotations differ from a single rotation by Q_later Q_earlier",
-                        worst=float(np.max(np.abs(h.array - g.array))) if h.array.shape == g.array.shape else None)
+                        worst=float(np.max(np.abs(ha - ga))) if ha.shape == ga.shape else None)
     if not any_inside:
         ctx.trivial()
     # clear and restart
     last = rot.field
     rot.clear_rotation()
-    ctx.require(rot.field is f and np.array_equal(f.array, data) and rot.field.mesh == mesh, "C18.clear", "clear_rotation does not restore the original field")
+    ctx.require(rot.field is f and f.array.dtype == storage and np.array_equal(f.array, data) and rot.field.mesh == mesh, "C18.clear",
+                "clear_rotation does not restore the original field (object, values, storage dtype, mesh)")
     r, e = raises(Exception, apply_rotation, rot, specs[0], pr["new_n"])
     if ctx.require(not r, "C18.clear", "rotate after clear_rotation raised", error=repr(e) if r else None):
         fresh = df.FieldRotator(f)
@@ -492,6 +666,10 @@ def check_quarter(pr, ctx):
         ctx.trivial()
     rot = df.FieldRotator(f)
     ref = f
+    if "dtype" in pr:
+        # lattice rotation of the SAME stored values held in float64 / complex128 (same vdims / mapping)
+        ref = df.Field(mesh, nvdim=f.nvdim, value=data.copy(), vdims=f.vdims, vdim_mapping=f.vdim_mapping,
+                       **({"dtype": complex} if np.iscomplexobj(data) else {}))
     dims = list(mesh.region.dims)
     for t in pr["turns"]:
         i = "xyz".index(t["axis"])
@@ -513,12 +691,13 @@ def check_quarter(pr, ctx):
                     want=[ref.mesh.n, ref.mesh.region.pmin, ref.mesh.region.pmax])
         if okm:
             tol = _budget(mesh, g, data)
-            err = np.abs(g.array - ref.array)
-            ctx.require(bool(np.all(err <= tol)), "C18.quarter_turn", "values after quarter turns differ from Field.rotate90",
-                        worst_over_budget=float(err.max() / tol), turn=t)
+            err = np.abs(g.array - np.asarray(ref.array, dtype=data.dtype))
+            ctx.require(bool(np.all(err <= tol)), "C18.quarter_turn",
+                        "values after quarter turns differ from Field.rotate90 [original stores %s, rotated field stores %s]" % (info.get("storage"), g.array.dtype),
+                        sig=_value_sig(data, g), worst_over_budget=float(err.max() / tol), turn=t)
         if data.shape[-1] == 3 and pr["mapping"] != "default":
-            ctx.require(okm and bool(np.all(np.abs(g.array - ref.array) <= _budget(mesh, g, data))), "C18.permuted_mapping",
-                        "permuted mapping: quarter turn differs from Field.rotate90")
+            ctx.require(okm and bool(np.all(np.abs(g.array - np.asarray(ref.array, dtype=data.dtype)) <= _budget(mesh, g, data))), "C18.permuted_mapping",
+                        "permuted / named mapping: quarter turn differs from Field.rotate90", sig=_value_sig(data, g))
 
 
 def check_refuse(pr, ctx):
